@@ -62,6 +62,7 @@ func runC19(c *core.Ctx) core.Meta {
 
 	// ---------------- PMC ----------------
 	p := NewPkgInfo(c, pmcPkg)
+	checkScratchFieldsReset(c, "R19.12", "In the driver's migration path: a GPU that requested a page before is served twice, the page is re-homed twice and the table ends on a page that never receives the data.", 0, NewPkgInfo(c, driverPkg))
 
 	// R19.11 a refused command leaves the running one alone
 	st11 := c.Rule("R19.11", "a command the control middleware of the command processor refuses (return false: an earlier flush / shootdown / restart is still in progress, the command stays at the head of the port) does not change the middleware's state: in every bool-returning handler of ctrlMiddleware that takes a command or response, no store to a field of the middleware is followed by a return false. A shootdown that is only peeked while another runs must not replace currShootdownRequest: the running one would flush the waiting command's pages from the TLBs and report completion with its own pages still cached", 10)
